@@ -13,7 +13,8 @@ from .common import SPEC, log, scratch, Timer
 PARAMS = {"quick": dict(max_steps=3, all_paths=False), "thorough": dict(max_steps=4, all_paths=True)}
 
 ROOT = 'import "imp.pg";\nS: A "x" | "y" T | E;\nT: A "z" | C;\nA: "d";\nC: "d" "e";\nE: E "+" E | E "-" E | imp.N%s;\n'
-IMP = 'N: "n"%s;\n'
+IMP = 'import "leaf.pg";\nN: "n" | leaf.M%s;\n'
+LEAF = 'M: "m"%s;\n'
 OPTS = {
     "lr": ("lr", {}),
     "glr": ("glr", {}),
@@ -28,6 +29,13 @@ def root_text(v):
 
 def imp_text(v):
     return IMP % "".join(' | "i%d"' % i for i in range(1, v + 1))
+
+
+def leaf_text(v):
+    return LEAF % "".join(' | "l%d"' % i for i in range(1, v + 1))
+
+
+TEXT = {"root": root_text, "imp": imp_text, "leaf": leaf_text}
 
 
 def graph(max_steps):
@@ -94,18 +102,17 @@ class Crash(Exception):
 _fresh_cache = {}
 
 
-def fresh_sig(real, o, rv, iv):
-    """serialisation of the table a parser gets when there is no cache at all (clean directory)"""
-    key = (o, rv, iv)
+def fresh_sig(real, o, vers):
+    """serialisation of the table a parser gets when there is no cache at all (clean directory); vers = (root, imp, leaf) versions"""
+    key = (o,) + tuple(vers)
     if key not in _fresh_cache:
         from parglare.tables.persist import table_to_serializable
 
         c = tempfile.mkdtemp(prefix="fresh-", dir=scratch())
         try:
-            with open(c + "/root.pg", "w") as f:
-                f.write(root_text(rv))
-            with open(c + "/imp.pg", "w") as f:
-                f.write(imp_text(iv))
+            for fn, v in zip(("root", "imp", "leaf"), vers):
+                with open("%s/%s.pg" % (c, fn), "w") as f:
+                    f.write(TEXT[fn](v))
             kind, kw = OPTS[o]
             with real.quiet():
                 g = real.Grammar.from_file(c + "/root.pg")
@@ -131,11 +138,19 @@ def replay(job):
 
     path = job["path"]
     d = tempfile.mkdtemp(prefix="cache-", dir=scratch())
-    rv = iv = 0
+    ver = {"root": 0, "imp": 0, "leaf": 0}
+
+    def vers():
+        return (ver["root"], ver["imp"], ver["leaf"])
+
+    def older():
+        import itertools
+
+        return itertools.product(range(ver["root"] + 1), range(ver["imp"] + 1), range(ver["leaf"] + 1))
     clock = 2
     trace = []
     try:
-        for fn, txt in (("root.pg", root_text(0)), ("imp.pg", imp_text(0))):
+        for fn, txt in (("root.pg", root_text(0)), ("imp.pg", imp_text(0)), ("leaf.pg", leaf_text(0))):
             with open(os.path.join(d, fn), "w") as f:
                 f.write(txt)
             os.utime(os.path.join(d, fn), (1, 1))
@@ -163,11 +178,11 @@ def replay(job):
                         g = real.Grammar.from_file(os.path.join(d, "root.pg"))
                         p = (real.GLRParser if kind == "glr" else real.Parser)(g, **{k: (real.TABLES[v] if k == "tables" else v) for k, v in kw.items()})
                     sig = json.dumps(table_to_serializable(p.table), sort_keys=True)
-                    if sig == fresh_sig(real, arg, rv, iv):
+                    if sig == fresh_sig(real, arg, vers()):
                         reply = "table-fresh"
-                    elif any(sig == fresh_sig(real, o, rv, iv) for o in OPTS if o != arg):
+                    elif any(sig == fresh_sig(real, o, vers()) for o in OPTS if o != arg):
                         reply = "table-other-options"
-                    elif any(sig == fresh_sig(real, arg, a, b) for a in range(rv + 1) for b in range(iv + 1)):
+                    elif any(sig == fresh_sig(real, arg, v) for v in older()):
                         reply = "table-stale"
                     else:
                         reply = "table-unknown"
@@ -186,24 +201,15 @@ def replay(job):
                     cli.compile_get_grammar_table(os.path.join(d, "root.pg"), False, False, False, False)
                 os.utime(pgc, (clock, clock))
                 reply = "compile"
-            elif act == "DoEditRoot":
-                rv += 1
-                with open(os.path.join(d, "root.pg"), "w") as f:
-                    f.write(root_text(rv))
-                os.utime(os.path.join(d, "root.pg"), (clock, clock))
-                reply = "edit-root"
-            elif act == "DoEditImp":
-                iv += 1
-                with open(os.path.join(d, "imp.pg"), "w") as f:
-                    f.write(imp_text(iv))
-                os.utime(os.path.join(d, "imp.pg"), (clock, clock))
-                reply = "edit-imp"
-            elif act == "DoTouchRoot":
-                os.utime(os.path.join(d, "root.pg"), (clock, clock))
-                reply = "touch-root"
-            elif act == "DoTouchImp":
-                os.utime(os.path.join(d, "imp.pg"), (clock, clock))
-                reply = "touch-imp"
+            elif act == "DoEdit":
+                ver[arg] += 1
+                with open(os.path.join(d, arg + ".pg"), "w") as f:
+                    f.write(TEXT[arg](ver[arg]))
+                os.utime(os.path.join(d, arg + ".pg"), (clock, clock))
+                reply = "edit"
+            elif act == "DoTouch":
+                os.utime(os.path.join(d, arg + ".pg"), (clock, clock))
+                reply = "touch"
             # projection of the directory
             pst, writer = "absent", "-"
             if os.path.exists(pgc):
@@ -213,10 +219,9 @@ def replay(job):
                     pst = "complete"
                     writer = "?"
                     for o in OPTS:
-                        for a in range(rv + 1):
-                            for b in range(iv + 1):
-                                if content == fresh_sig(real, o, a, b):
-                                    writer = o
+                        for v in older():
+                            if content == fresh_sig(real, o, v):
+                                writer = o
                 except ValueError:
                     pst, writer = "prefix", "?"
             trace.append({"act": act, "arg": arg, "reply": reply, "pst": pst, "writer": writer})
@@ -260,7 +265,7 @@ def _check_distinct():
     from . import real
 
     real.init_worker()
-    sigs = {o: fresh_sig(real, o, 0, 0) for o in OPTS}
+    sigs = {o: fresh_sig(real, o, (0, 0, 0)) for o in OPTS}
     if len(set(sigs.values())) != len(sigs):
         raise tlcrun.MachineryFailure("cache replay grammar does not separate the option sets: %s" %
                                       [(a, b) for a in sigs for b in sigs if a < b and sigs[a] == sigs[b]])
